@@ -59,6 +59,7 @@ for meth, flag in (("enable", "True"), ("disable", "False")):
         ],
         raises={"KeyError": INVALIDATED + SAME_RULES + [
             ("not-ignoring", "not ignoreInvalid"),
+            ("unknown-name", f"exists(j, 0, len(aslist(names)), Find(self.__rules__, {N}, aslist(names)[j]) < 0)"),
             ("only-named-flip", f"forall(i, 0, {N}, self.__rules__[i].enabled == old(self.__rules__[i].enabled) or self.__rules__[i].enabled == {flag})"),
         ]},
         loops={0: {"types": {"name": "atom", "idx": "int"},
@@ -79,7 +80,7 @@ add(Contract(
         ("set-semantics", f"forall(i, 0, {N}, iff(self.__rules__[i].enabled, exists(j, 0, len(aslist(names)), Find(self.__rules__, {N}, aslist(names)[j]) == i)))"),
         ("result-found", f"forall(j, 0, len(result), Find(self.__rules__, {N}, result[j]) >= 0 and self.__rules__[Find(self.__rules__, {N}, result[j])].enabled)"),
     ],
-    raises={"KeyError": INVALIDATED + SAME_RULES + [("not-ignoring", "not ignoreInvalid")]},
+    raises={"KeyError": INVALIDATED + SAME_RULES + [("not-ignoring", "not ignoreInvalid"), ("unknown-name", f"exists(j, 0, len(aslist(names)), Find(self.__rules__, {N}, aslist(names)[j]) < 0)"),]},
     loops={0: {"types": {"rule": "none"},
                "inv": [("cache-none", "self.__cache__ is None")] + SAME_RULES + [
                    ("disabled-prefix", "forall(i, 0, _it0, not self.__rules__[i].enabled)"), ("it-range", f"_it0 <= {N}")],
